@@ -606,7 +606,7 @@ def check(run):
     variants = sc.detect_variants(run)
     g = stixgen.Gen(run.rng)
     defaults = default_pairs(g.spec)
-    cands = gen_candidates(run, g, 6 if quick else 16)
+    cands = gen_candidates(run, g, 5 if quick else 16)
     cands += fraction_sweep(g, run.rng, 160 if quick else 1500)
     cands += extension_orders(g, run.rng)
     cands += bound_candidates(g, run.rng)
